@@ -1,9 +1,9 @@
 #!/bin/sh
-# import_seed.sh <Cxx>: copy the round-3 outputs /tmp/seed3-<Cxx>/{A,B}.* to seeded/<Cxx>-E and seeded/<Cxx>-F
-P=$1
-for x in A B; do t=E; [ $x = B ] && t=F; d=/verif/seeded/$P-$t; mkdir -p $d
-  for f in /tmp/seed3-$P/$x.*; do b=$(basename $f); b=${b#$x.}; [ -x "$f" ] && [ "${b%.*}" = "$b" ] && continue; [ "$b" = "demo" ] && continue; cp $f $d/$b; done
+# import_seed.sh <Cxx> [srcprefix=/tmp/seed3] [letterA=E] [letterB=F]: copy <srcprefix>-<Cxx>/{A,B}.* to seeded/<Cxx>-<letter>
+P=$1; SRC=${2:-/tmp/seed3}; LA=${3:-E}; LB=${4:-F}
+for x in A B; do t=$LA; [ $x = B ] && t=$LB; d=/verif/seeded/$P-$t; mkdir -p $d
+  for f in $SRC-$P/$x.*; do b=$(basename $f); b=${b#$x.}; [ -x "$f" ] && [ "${b%.*}" = "$b" ] && continue; [ "$b" = "demo" ] && continue; cp $f $d/$b; done
   [ -f $d/demo.sh ] && echo "NOTE: $d/demo.sh needs to be made self-contained"
-  grep -l -- "-O2" $d/demo.cpp >/dev/null 2>&1 && head -12 $d/demo.cpp | grep -q -- "-O2" && echo "-O2" > $d/demo.flags
+  head -12 $d/demo.cpp 2>/dev/null | grep -q -- "-O2" && echo "-O2" > $d/demo.flags
 done
-ls /verif/seeded/$P-E /verif/seeded/$P-F
+true
